@@ -476,7 +476,8 @@ func (se *symExec) execStmt(s ast.Stmt, st *sstate) (fall []*sstate, rets []path
 				}
 				// inside a helper that was looked through: a boolean result that is a test (a && b, x == y, !p)
 				// is decided here, so that the caller's `if helper(…)` branches on the test itself
-				if len(se.inStack) > 0 && len(x.Results) == 1 && se.isBoolTest(rexpr) && isNewFunc(FuncID(se.inStack[len(se.inStack)-1])) {
+				if len(x.Results) == 1 && se.isBoolTest(rexpr) &&
+					(se.tableMode || len(se.inStack) > 0 && isNewFunc(FuncID(se.inStack[len(se.inStack)-1]))) {
 					tr, fa := se.branch(rexpr, a.st)
 					for _, t := range tr {
 						next = append(next, acc{t, []val{{kind: vBool, bk: true, b: true}}})
